@@ -42,7 +42,10 @@ def checkWith {σ : Type} (sc : Driver.Script) (m0 : Int → σ)
       match ln.toks with
       | ["new", n] =>
         let n := (int? n).getD 0
-        m := m0 n; s := some (init n); pending := none
+        -- the monitor's state is linear in the buffer size (one entry per queued cell): above 2^24 cells it is not followed
+        -- and the script is decided by equality with the index-based model alone (which C10_refines covers for every size)
+        m := m0 n; s := if n > 16777216 then none else some (init n); pending := none
+        if n > 16777216 then res := { res with tags := Driver.addTag res.tags "huge-size-model-only" }
       | toks =>
         match parseOp toks with
         | some op => pending := some op; res := { res with ops := res.ops + 1 }
